@@ -53,6 +53,9 @@ pub fn run(args: &Args, rec: &mut Recorder) {
                 let doc = gen.gen_doc(rng);
                 let text = render(&doc.flatten(), &LayoutCfg::c05(rng), rng).text;
                 rec.nontrivial(text.as_bytes());
+                if rec.want_sample() && case % 97 == 0 {
+                    rec.sample(vcommon::json::Json::obj().with("kind", vcommon::json::Json::s("totality: grammar document")).with("text", vcommon::json::Json::s(&vcommon::json::clip(&text, 400))));
+                }
                 if let Ok(Ok((a2l, _))) = load_str(&text, false) {
                     rec.eval();
                     rec.bump("totality.grammar_documents");
